@@ -286,16 +286,14 @@ func (c *Ctx) onStack(fr *Frame, fn *ssa.Function) bool {
 
 // autoInline: tiny loop-free leaf functions (accessors, constructors) are inlined.
 func (c *Ctx) autoInline(fn *ssa.Function) bool {
-	if len(fn.Blocks) == 0 || len(fn.Blocks) > 6 {
+	if len(fn.Blocks) == 0 || len(fn.Blocks) > 8 {
+		return false
+	}
+	if ci := c.mods.cfgOf(fn); len(ci.loops) > 0 {
 		return false
 	}
 	n := 0
 	for _, b := range fn.Blocks {
-		for _, s := range b.Succs {
-			if s.Index <= b.Index {
-				return false // loop
-			}
-		}
 		n += len(b.Instrs)
 	}
 	return n <= 40
@@ -685,7 +683,11 @@ func (c *Ctx) execInvoke(fr *Frame, st *State, reach, name string, pos token.Pos
 			c.oblige("SAFE", "SAFE.invoke", pos, reach, g, "method "+cc.Method.Name()+" may panic for dynamic type "+types.TypeString(it, nil))
 			c.assume(reach, g)
 		}
-		return c.pureInvoke(cc.Value.Type(), cc.Method, rt, args, resType)
+		pv := c.pureInvoke(cc.Value.Type(), cc.Method, rt, args, resType)
+		// what an allocated object refers to is allocated and well-typed
+		c.assumeTyped(reach, pv, resType, st, 1)
+		c.assumeInv(reach, pv.T, resType, st)
+		return pv
 	}
 	return c.dispatch(fr, st, reach, name, pos, cc.Value.Type(), cc.Method, rt, args, resType)
 }
@@ -1071,6 +1073,11 @@ func (c *Ctx) tracedKey(fr *Frame, cc *ssa.CallCommon) (int, bool) {
 		return dynID(v.Name()), true
 	case *ssa.FreeVar:
 		return dynID(v.Name()), true
+	case *ssa.UnOp:
+		// a captured variable that the enclosing function reassigns is captured by reference
+		if fv, ok := v.X.(*ssa.FreeVar); ok && v.Op == token.MUL {
+			return dynID(fv.Name()), true
+		}
 	case *ssa.Builtin:
 		return 0, false
 	}
@@ -1090,7 +1097,7 @@ func (c *Ctx) logCall(fr *Frame, st *State, reach string, id int, cc *ssa.CallCo
 	k := 0
 	loggedSlice := false
 	for ai, a := range cc.Args {
-		if k >= 5 {
+		if k >= 6 {
 			break
 		}
 		srt := c.sorts.Of(a.Type())
@@ -1098,7 +1105,7 @@ func (c *Ctx) logCall(fr *Frame, st *State, reach string, id int, cc *ssa.CallCo
 			// variadic []PanObject: its first elements take the next argument slots
 			sv := c.term(c.operand(fr, a, st))
 			earr := c.arr(st, c.sorts.ElemArrayT(a.Type().Underlying().(*types.Slice).Elem()), "Int")
-			for j := 0; k < 5 && j < 3; j++ {
+			for j := 0; k < 6 && j < 4; j++ {
 				k++
 				put(fmt.Sprintf("TR_a%d", k), fmt.Sprintf("(select (select %s (s_arr %s)) (+ (s_off %s) %d))", earr, sv, sv, j))
 			}
